@@ -59,6 +59,13 @@ QOPS = [("ins", 1.0), ("ins", 2.0), ("ins", 3.0), ("ins", NINF), ("pop", None), 
 
 def queue_history(maxlen, seq):
     """-> (messages, canonical model state)"""
+    try:
+        return _queue_history(maxlen, seq)
+    except Exception as e:
+        return [f"maxlen={maxlen} ops {[QOPS[i] for i in seq]}: a queue operation raised {type(e).__name__}: {e}"], None
+
+
+def _queue_history(maxlen, seq):
     q = CharacteristicsQueue(maxlen)
     model = []           # list of (priority, serial)
     items = {}
@@ -122,7 +129,7 @@ def queue_task(task):
 # ---------------------------------------------------------------- part 2: SearchData / SearchDataDualQueue
 XS = [0.125, 0.25, 0.5, 0.75]
 CS = [1.0, 2.0, NINF]
-OVS = [0.0, 2.5]
+OVS = [0.0, 2.5, 2.0000001]     # 2.0000001: a characteristic that moved by less than 1e-7 relative is still stale
 
 
 def sd_ops(dual):
@@ -141,8 +148,9 @@ def sd_ops(dual):
 
 
 class Model:
-    def __init__(self, dual):
+    def __init__(self, dual, maxlen=None):
         self.dual = dual
+        self.maxlen = maxlen         # bounded queues keep the maxlen highest entries (which of equal lowest ones goes is free)
         self.items = []              # real items, sorted by x
         self.q = {}                  # queue object id -> list of (priority, item)
         self.role = {}               # queue id -> "g" / "l"
@@ -156,7 +164,7 @@ class Model:
 def localR(c):
     # a different order than the global one so that the two queues disagree; all local values are >= 100 so that a
     # queue's role can be read off any of its entries
-    return {1.0: 102.0, 2.0: 101.0, NINF: 100.0, 0.0: 100.25, 2.5: 102.75}[c]
+    return {1.0: 102.0, 2.0: 101.0, NINF: 100.0, 0.0: 100.25, 2.5: 102.75, 2.0000001: 101.00000005}[c]
 
 
 def role_of(ents):
@@ -171,6 +179,10 @@ def drain(model, msgs, ctx, request=None):
         ents = model.q.setdefault(qid, [])
         if kind == "ins":
             ents.append((ev[2], ev[3]))
+            if model.maxlen is not None and len(ents) > model.maxlen:
+                lo = min(p for p, _ in ents)
+                ents.remove(next(e for e in reversed(ents) if e[0] == lo))
+                model.evicted = True
         elif kind == "clr":
             ents.clear()
         else:
@@ -180,6 +192,9 @@ def drain(model, msgs, ctx, request=None):
                 continue
             mx = max(p for p, _ in ents)
             hit = [e for e in ents if e[0] == pr and e[1] is it]
+            if not hit and model.maxlen is not None:
+                # bounded queue: which of several equal lowest entries was evicted is not specified
+                hit = [e for e in ents if e[0] == pr]
             if not hit:
                 msgs.append(f"{ctx}: queue returned (x={it.GetX()}, priority {pr!r}) which was never queued")
                 continue
@@ -191,13 +206,35 @@ def drain(model, msgs, ctx, request=None):
     return pops
 
 
-def sd_history(dual, seq, ops=None):
-    """replay an operation list on fresh objects; -> (messages, model or None, enabled op indices)"""
+def top_priorities(model, role):
+    """what a queue of this role must hold after a refill: one current entry per item, the maxlen highest if bounded"""
+    want = sorted((i.globalR if role == "g" else i.localR) for i in model.items)
+    if model.maxlen is not None:
+        want = want[-model.maxlen:]
+    return want
+
+
+def sd_history(dual, seq, ops=None, maxlen=None):
+    """replay an operation list on fresh objects; -> (messages, model or None, enabled op indices).
+    An exception escaping from a container operation is a finding, not a harness failure."""
+    try:
+        return _sd_history(dual, seq, ops, maxlen)
+    except Exception as e:
+        ops_ = ops or sd_ops(dual)
+        import traceback
+        where = traceback.extract_tb(e.__traceback__)[-1]
+        return [f"{'dual' if dual else 'plain'}{'' if maxlen is None else f' maxlen={maxlen}'} ops "
+                f"{[ops_[i] for i in seq]}: a container operation raised {type(e).__name__}: {e} "
+                f"({where.filename.split('/')[-1]}:{where.lineno})"], None, []
+
+
+def _sd_history(dual, seq, ops=None, maxlen=None):
     install()
     ops = ops or sd_ops(dual)
     del _LOG[:]
-    sd = (SearchDataDualQueue if dual else SearchData)(None)
-    model = Model(dual)
+    sd = (SearchDataDualQueue if dual else SearchData)(None, maxlen) if maxlen is not None else \
+        (SearchDataDualQueue if dual else SearchData)(None)
+    model = Model(dual, maxlen)
     left, right = mk(0.0, NINF, localR(NINF)), mk(1.0, 1.0, localR(1.0))
     sd.InsertFirstDataItem(left, right)
     model.items = [left, right]
@@ -205,7 +242,7 @@ def sd_history(dual, seq, ops=None):
     drain(model, msgs, "InsertFirstDataItem")
     for j, k in enumerate(seq):
         op = ops[k]
-        ctx = f"{'dual' if dual else 'plain'} ops {[ops[i] for i in seq[:j + 1]]}"
+        ctx = f"{'dual' if dual else 'plain'}{'' if maxlen is None else f' maxlen={maxlen}'} ops {[ops[i] for i in seq[:j + 1]]}"
         if op[0] == "ins":
             _, x, c, hint = op
             it = mk(x, c, localR(c))
@@ -222,6 +259,8 @@ def sd_history(dual, seq, ops=None):
                 role = model.role.get(qid)
                 for i2 in [it] + ([rightn] if hint else []):
                     pr = i2.globalR if role == "g" else i2.localR
+                    if maxlen is not None:
+                        continue      # a bounded queue may have evicted it at once; retention is judged at the requests
                     if role and not any(p == pr and i is i2 for p, i in ents):
                         msgs.append(f"{ctx}: after the insertion the {role} queue has no entry ({pr!r}, x={i2.GetX()})")
         elif op[0] == "ovw":
@@ -241,7 +280,12 @@ def sd_history(dual, seq, ops=None):
                 role = role_of(ents)
                 model.role[qid] = role
                 want = sorted(((i.globalR if role == "g" else i.localR), i.GetX()) for i in model.items)
-                if sorted((p, i.GetX()) for p, i in ents) != want:
+                if maxlen is not None:
+                    if sorted(p for p, _ in ents) != top_priorities(model, role):
+                        msgs.append(f"{ctx}: after RefillQueue the bounded {role} queue (maxlen={maxlen}) holds priorities "
+                                    f"{sorted(p for p, _ in ents)}, the {maxlen} highest current ones are "
+                                    f"{top_priorities(model, role)}")
+                elif sorted((p, i.GetX()) for p, i in ents) != want:
                     msgs.append(f"{ctx}: after RefillQueue the {role} queue holds {sorted((p, i.GetX()) for p, i in ents)}, "
                                 f"expected one current entry per item {want}")
         else:
@@ -312,10 +356,11 @@ def sd_history(dual, seq, ops=None):
 
 def sd_bfs(task):
     """BFS below one first operation, merging on the canonical model state"""
-    dual, depth, first = task
+    dual, depth, first = task[:3]
+    maxlen = task[3] if len(task) > 3 else None
     ops = sd_ops(dual)
-    msgs, model, enabled = sd_history(dual, [first], ops)
-    viol = [dict(driver="sd", dual=dual, seq=[first], message=m, sig={}) for m in msgs]
+    msgs, model, enabled = sd_history(dual, [first], ops, maxlen)
+    viol = [dict(driver="sd", dual=dual, maxlen=maxlen, seq=[first], message=m, sig={}) for m in msgs]
     if model is None:
         return 1, 1, viol, 0
     seen = {model.canon()}
@@ -326,10 +371,10 @@ def sd_bfs(task):
         for seq, en in frontier:
             for k in en:
                 s2 = seq + [k]
-                msgs, model, en2 = sd_history(dual, s2, ops)
+                msgs, model, en2 = sd_history(dual, s2, ops, maxlen)
                 trans += 1
                 for m in msgs:
-                    viol.append(dict(driver="sd", dual=dual, seq=s2, message=m, sig={}))
+                    viol.append(dict(driver="sd", dual=dual, maxlen=maxlen, seq=s2, message=m, sig={}))
                 if model is None:
                     continue
                 c = model.canon()
@@ -360,7 +405,9 @@ def run(ctx):
         qout += no
         res.merge_violations(viol)
     depth = 6 if th else 4
-    tasks = [(dual, depth, f) for dual in (False, True) for f in first_ops(dual)]
+    tasks = [(dual, depth, f, None) for dual in (False, True) for f in first_ops(dual)]
+    # the containers built with a bounded characteristics queue (maxlen 2: fewer places than intervals)
+    tasks += [(dual, depth, f, 2) for dual in (False, True) for f in first_ops(dual)]
     states = trans = 0
     for t, (ns, nt, viol, d) in zip(tasks, pmap(sd_bfs, tasks)):
         states += ns
@@ -385,4 +432,4 @@ def run(ctx):
 def replay(rec):
     if rec["driver"] == "queue":
         return queue_history(rec["maxlen"], rec["seq"])[0]
-    return sd_history(rec["dual"], rec["seq"])[0]
+    return sd_history(rec["dual"], rec["seq"], None, rec.get("maxlen"))[0]
